@@ -1,6 +1,321 @@
-(** C01 — placeholder until the proofs are in; replaced below. *)
-From Coq Require Import List.
-Require Import Fggs.Model.Semiring Fggs.Model.SumProduct.
-Theorem C01_Zk_unfold : forall R (o : sr_ops R) G w k, Zk o G w (S k) = step o G w (Zk o G w k).
-Proof. reflexivity. Qed.
-Print Assumptions C01_Zk_unfold.
+(** C01 — the sum-product of a non-recursive FGG equals its definition (and the Kleene part of
+    C02: the k-th iterate is the sum over derivations of depth <= k).
+    Only property theorems live here, each closed by [exact] and followed by Print Assumptions.
+    Everything is generic in the semiring: [forall R (o : sr_ops R), sr_ring o -> ...]
+    (sr_ring = commutative semiring laws); instances for [bool_ops] at the end. *)
+From Coq Require Import List Arith Bool PeanoNat.
+Import ListNotations.
+Require Import Fggs.Model.Semiring Fggs.Model.SCC Fggs.Model.SumProduct Fggs.Model.SumProductCheck.
+Require Import Fggs.Proofs.BigSum Fggs.Proofs.SP_trees Fggs.Proofs.SP_nonrec Fggs.Proofs.SP_code
+               Fggs.Proofs.SP_rename Fggs.Proofs.SP_spe Fggs.Proofs.SP_driver Fggs.Proofs.SP_main
+               Fggs.Proofs.SP_corollaries Fggs.Proofs.SP_examples Fggs.Proofs.SP_check_sound
+               Fggs.Proofs.SP_scc_glue.
+
+(** * 0. The oracle of the correspondence check is sound *)
+(** verdict 0 of [sp_check] (any carrier, any tolerance predicate [within]): the grammar is
+    well-formed and every observed cell of every nonterminal is accepted by [within] against the
+    Kleene iterate number #nonterminals (by section 3: the sum over all derivation trees) *)
+Theorem C01_check_oracle_sound :
+  forall R W B (o : sr_ops R) (of_wire : W -> R) (within : R -> B -> bool) (eqb : R -> R -> bool) gw ws obs,
+  sp_check o of_wire within eqb (gw, ws, obs) = 0 ->
+  let G := grammar_of_w gw in
+  let Wt := env_of o (weights_tmt of_wire G ws) in
+  wf_grammar G = true
+  /\ forall X, is_term G X = false ->
+       exists ob, obs_get obs X = Some ob
+                  /\ Forall2 (fun xi b => within (Zk o G Wt (length (nonterminals G)) X xi) b = true)
+                             (all_assts (lshape G X)) ob.
+Proof. exact (fun R W B => @sp_check_sound R W B). Qed.
+Print Assumptions C01_check_oracle_sound.
+
+Theorem C01_bool_check_oracle_sound :
+  forall gw ws obs, sp_check_bool (gw, ws, obs) = 0 ->
+  let G := grammar_of_w gw in
+  forall X, is_term G X = false ->
+    exists ob, obs_get obs X = Some ob
+               /\ ob = map (Zk bool_ops G (env_of bool_ops (weights_tmt (fun b : bool => b) G ws)) (length (nonterminals G)) X)
+                           (all_assts (lshape G X)).
+Proof. exact sp_check_bool_sound. Qed.
+Print Assumptions C01_bool_check_oracle_sound.
+
+(** * 1. Finite sums and products *)
+(** product of sums = sum, over all choice functions, of the products *)
+Theorem C01_prod_of_sums :
+  forall R (o : sr_ops R), sr_ring o ->
+  forall A B (l : list A) (f : A -> list B) (g : A -> B -> R),
+    prodS o l (fun i => sumS o (f i) (g i))
+    = sumS o (choices (map f l)) (fun c => prodS o (combine l c) (fun p => g (fst p) (snd p))).
+Proof. exact (fun R o H A B => @prod_of_sums R o H A B). Qed.
+Print Assumptions C01_prod_of_sums.
+
+Theorem C01_sum_permutation_invariant :
+  forall R (o : sr_ops R), sr_ring o ->
+  forall A (l l' : list A) (f : A -> R), Permutation.Permutation l l' -> sumS o l f = sumS o l' f.
+Proof. exact (fun R o H A => @sumS_perm R o H A). Qed.
+Print Assumptions C01_sum_permutation_invariant.
+
+Theorem C01_sum_exchange :
+  forall R (o : sr_ops R), sr_ring o ->
+  forall A B (l : list A) (l' : list B) (f : A -> B -> R),
+    sumS o l (fun x => sumS o l' (fun y => f x y)) = sumS o l' (fun y => sumS o l (fun x => f x y)).
+Proof. exact (fun R o H A B => @sumS_exchange R o H A B). Qed.
+Print Assumptions C01_sum_exchange.
+
+(** * 2. Kleene iterate = sum over derivation trees of bounded depth (C01 and C02) *)
+Theorem C01_Zk_is_tree_sum :
+  forall R (o : sr_ops R), sr_ring o ->
+  forall G w k X xi, is_term G X = false -> Zk o G w k X xi = tree_sum o G w k X xi.
+Proof. exact (fun R o H => @Zk_is_tree_sum R o H). Qed.
+Print Assumptions C01_Zk_is_tree_sum.
+
+(** [enum_trees G k X xi] lists exactly the well-formed derivation trees (with their assignments)
+    of X with external assignment xi and depth <= k, each once; so [tree_sum] literally is the sum
+    over all derivations of depth <= k and all assignments of the product of the factor weights *)
+Theorem C01_enum_trees_spec :
+  forall G k X xi t, In t (enum_trees G k X xi) <-> wf_dtree G X xi t /\ depth t <= k.
+Proof. exact enum_trees_spec. Qed.
+Print Assumptions C01_enum_trees_spec.
+
+Theorem C01_enum_trees_NoDup : forall G k X xi, NoDup (enum_trees G k X xi).
+Proof. exact enum_trees_NoDup. Qed.
+Print Assumptions C01_enum_trees_NoDup.
+
+(** C02, Kleene part: the k-th iterate of the grammar's equations from zero is the sum of the
+    weights of the derivations of depth <= k (any grammar, recursive or not) *)
+Theorem C02_kleene_is_bounded_depth :
+  forall R (o : sr_ops R), sr_ring o ->
+  forall G w k X xi, is_term G X = false ->
+    Zk o G w k X xi = sumS o (enum_trees G k X xi) (weight o G w)
+    /\ NoDup (enum_trees G k X xi)
+    /\ forall t, In t (enum_trees G k X xi) <-> wf_dtree G X xi t /\ depth t <= k.
+Proof.
+  exact (fun R o H G w k X xi HX =>
+           conj (@Zk_is_tree_sum R o H G w k X xi HX)
+                (conj (enum_trees_NoDup G k X xi) (enum_trees_spec G k X xi))).
+Qed.
+Print Assumptions C02_kleene_is_bounded_depth.
+
+(** * 3. Non-recursive grammars *)
+Theorem C01_Zk_stable :
+  forall R (o : sr_ops R), sr_ring o ->
+  forall G w rank, ranked G rank ->
+  forall k X xi, is_term G X = false -> rank X < k -> Zk o G w (S k) X xi = Zk o G w k X xi.
+Proof. exact (fun R o _ => @Zk_stable R o). Qed.
+Print Assumptions C01_Zk_stable.
+
+Theorem C01_tree_depth_le_rank :
+  forall G rank, ranked G rank ->
+  forall X xi t, is_term G X = false -> wf_dtree G X xi t -> depth t <= S (rank X).
+Proof. exact wf_dtree_depth. Qed.
+Print Assumptions C01_tree_depth_le_rank.
+
+Theorem C01_rank_normalise :
+  forall G rank, ranked G rank ->
+  exists rank', ranked G rank' /\ forall X, is_term G X = false -> rank' X < length (nonterminals G).
+Proof. exact ranked_normalise. Qed.
+Print Assumptions C01_rank_normalise.
+
+(** for k >= the number of nonterminals the iterate is the sum over ALL derivation trees *)
+Theorem C01_nonrec_all_trees :
+  forall R (o : sr_ops R), sr_ring o ->
+  forall G w rank, ranked G rank ->
+  forall k X xi, is_term G X = false -> length (nonterminals G) <= k ->
+    Zk o G w k X xi = sumS o (enum_trees G k X xi) (weight o G w)
+    /\ NoDup (enum_trees G k X xi)
+    /\ (forall t, In t (enum_trees G k X xi) <-> wf_dtree G X xi t)
+    /\ Zk o G w k X xi = Zk o G w (length (nonterminals G)) X xi.
+Proof. exact (fun R o H => @Zk_nonrec_all_trees R o H). Qed.
+Print Assumptions C01_nonrec_all_trees.
+
+(** * 4(a). sum_product_edges computes the value of a rule *)
+(** [oapp]: a [None] result counts as the zero tensor; [oenv]: a label without value counts as zero *)
+Theorem C01_spe_eq_rule_val :
+  forall R (o : sr_ops R), sr_ring o ->
+  forall G e r xi, wf_rule G r = true -> In xi (all_assts (lshape G (r_lhs r))) ->
+    oapp o (spe o (node_sizes G r) e (r_edges r) (r_ext r)) xi = rule_val o G (oenv o e) r xi.
+Proof. exact (fun R o H => @spe_spec R o H). Qed.
+Print Assumptions C01_spe_eq_rule_val.
+
+Theorem C01_spe_total_env :
+  forall R (o : sr_ops R), sr_ring o ->
+  forall G (e : env (R:=R)) r, wf_rule G r = true ->
+  exists f, spe o (node_sizes G r) (fun l => Some (e l)) (r_edges r) (r_ext r) = Some f
+            /\ forall xi, In xi (all_assts (lshape G (r_lhs r))) -> f xi = rule_val o G e r xi.
+Proof. exact (fun R o H => @spe_eq_rule_val R o H). Qed.
+Print Assumptions C01_spe_total_env.
+
+Theorem C01_spe_none_is_zero :
+  forall R (o : sr_ops R), sr_ring o ->
+  forall G e r ed, In ed (r_edges r) -> e (fst ed) = None ->
+    spe o (node_sizes G r) e (r_edges r) (r_ext r) = None
+    /\ forall xi, rule_val o G (oenv o e) r xi = zero o.
+Proof. exact (fun R o H => @spe_none R o H). Qed.
+Print Assumptions C01_spe_none_is_zero.
+
+(** the dense core, for arbitrary (also duplicated) external nodes, independent of grammars *)
+Theorem C01_spe_body_eq :
+  forall R (o : sr_ops R), sr_ring o ->
+  forall sizes0 e edges ext xi,
+    (forall u, In u ext -> u < length sizes0) ->
+    (forall ed u, In ed edges -> In u (snd ed) -> u < length sizes0) ->
+    In xi (all_assts (map (fun i => nth i sizes0 0) ext)) ->
+    spe_body o sizes0 e edges (fst (rename_dups ext [] (length sizes0))) (snd (rename_dups ext [] (length sizes0))) xi
+    = sumS o (filter (fun a => nat_list_eqb (sel a ext) xi) (all_assts sizes0)) (edge_prod o e edges).
+Proof. exact (fun R o H => @spe_body_eq R o H). Qed.
+Print Assumptions C01_spe_body_eq.
+
+(** * 4(b). F / one-step components / driver *)
+Theorem C01_sum_products_nonrec_Zk :
+  forall R (o : sr_ops R), sr_ring o ->
+  forall G, wf_grammar G = true ->
+  forall w ord, (forall l, tget w l <> None -> is_term G l = true) -> dep_ordered G [] ord ->
+  forall X k xi, In X ord -> length ord <= k -> In xi (all_assts (lshape G X)) ->
+    env_of o (sum_products_nonrec o G w (map (fun x => [x]) ord)) X xi = Zk o G (env_of o w) k X xi.
+Proof. exact (fun R o H => @sum_products_nonrec_Zk R o H). Qed.
+Print Assumptions C01_sum_products_nonrec_Zk.
+
+Theorem C01_Ztab_is_Zk :
+  forall R (o : sr_ops R), sr_ring o ->
+  forall G, wf_grammar G = true ->
+  forall W k X xi, is_term G X = false -> In xi (all_assts (lshape G X)) ->
+    env_of o (Ztab o G W k) X xi = Zk o G W k X xi.
+Proof. exact (fun R o _ => @Ztab_is_Zk R o). Qed.
+Print Assumptions C01_Ztab_is_Zk.
+
+(** C01 for the model, end to end: every entry (every nonterminal: rule-less and unreachable ones
+    included; every external assignment: any arity) of the code-shaped driver equals the tabulated
+    specification, the Kleene iterate, and the sum over all derivation trees *)
+Theorem C01_sum_products_eq_spec :
+  forall R (o : sr_ops R), sr_ring o ->
+  forall G, wf_grammar G = true ->
+  forall w ord, (forall l, tget w l <> None -> is_term G l = true) ->
+    dep_ordered G [] ord -> NoDup ord -> (forall X, is_term G X = false -> In X ord) ->
+  forall X xi, is_term G X = false -> In xi (all_assts (lshape G X)) ->
+    let N := length (nonterminals G) in
+    let v := env_of o (sum_products_nonrec o G w (map (fun x => [x]) ord)) X xi in
+    v = env_of o (Ztab o G (env_of o w) N) X xi
+    /\ v = Zk o G (env_of o w) N X xi
+    /\ v = sumS o (enum_trees G N X xi) (weight o G (env_of o w))
+    /\ NoDup (enum_trees G N X xi)
+    /\ (forall t, In t (enum_trees G N X xi) <-> wf_dtree G X xi t).
+Proof. exact (fun R o H => @sum_products_nonrec_correct R o H). Qed.
+Print Assumptions C01_sum_products_eq_spec.
+
+Theorem C01_order_gives_rank :
+  forall G ord, dep_ordered G [] ord -> (forall X, is_term G X = false -> In X ord) ->
+    ranked G (fun X => index_of X ord).
+Proof. exact dep_ordered_ranked. Qed.
+Print Assumptions C01_order_gives_rank.
+
+Theorem C01_nonrecursive_order_singletons :
+  forall G order, nonrecursive_order G order = true -> order = map (fun x => [x]) (concat order).
+Proof. exact nonrecursive_order_singletons. Qed.
+Print Assumptions C01_nonrecursive_order_singletons.
+
+(** composition with C19: an order accepted by the verified oracle [scc_ok] on the nonterminal graph
+    whose components are single non-looping nonterminals is dependency-respecting and complete;
+    so the end-to-end theorem needs no premise on the order beyond the two boolean checks
+    (and none at all once [scc g = Some cs -> scc_ok g cs = true] is proved in C19) *)
+Theorem C01_scc_order_ok :
+  forall G order, scc_ok (nt_graph G) order = true -> nonrecursive_order G order = true ->
+    dep_ordered G [] (concat order) /\ NoDup (concat order)
+    /\ (forall X, is_term G X = false -> In X (concat order)).
+Proof. exact scc_order_dep_ordered. Qed.
+Print Assumptions C01_scc_order_ok.
+
+Theorem C01_sum_products_eq_spec_scc :
+  forall R (o : sr_ops R), sr_ring o ->
+  forall G w order,
+    wf_grammar G = true -> (forall l, tget w l <> None -> is_term G l = true) ->
+    scc_ok (nt_graph G) order = true -> nonrecursive_order G order = true ->
+  forall X xi, is_term G X = false -> In xi (all_assts (lshape G X)) ->
+    let N := length (nonterminals G) in
+    let v := env_of o (sum_products_nonrec o G w order) X xi in
+    v = env_of o (Ztab o G (env_of o w) N) X xi
+    /\ v = Zk o G (env_of o w) N X xi
+    /\ v = sumS o (enum_trees G N X xi) (weight o G (env_of o w))
+    /\ NoDup (enum_trees G N X xi)
+    /\ (forall t, In t (enum_trees G N X xi) <-> wf_dtree G X xi t).
+Proof. exact (fun R o H => @sum_products_scc_correct R o H). Qed.
+Print Assumptions C01_sum_products_eq_spec_scc.
+
+(** * 4(c). The shapes the property lists *)
+Theorem C01_isolated_internal_node :
+  forall R (o : sr_ops R), sr_ring o ->
+  forall G e r nl xi, wf_rule G r = true -> nl < length (g_doms G) -> In xi (all_assts (lshape G (r_lhs r))) ->
+    oapp o (spe o (node_sizes G (add_node r nl)) e (r_edges r) (r_ext r)) xi
+    = mul o (from_nat o (dom G nl)) (rule_val o G (oenv o e) r xi).
+Proof. exact (fun R o H => @spe_isolated_internal R o H). Qed.
+Print Assumptions C01_isolated_internal_node.
+
+Theorem C01_isolated_external_node :
+  forall R (o : sr_ops R), sr_ring o ->
+  forall G (e : env (R:=R)) r pre v post xp x x' xq,
+    wf_rule G r = true -> r_ext r = pre ++ v :: post -> ~ In v pre -> ~ In v post ->
+    (forall ed, In ed (r_edges r) -> ~ In v (snd ed)) ->
+    length xp = length pre -> x < nth v (node_sizes G r) 0 -> x' < nth v (node_sizes G r) 0 ->
+    rule_val o G e r (xp ++ x' :: xq) = rule_val o G e r (xp ++ x :: xq).
+Proof. exact (fun R o H => @rule_val_isolated_external R o H). Qed.
+Print Assumptions C01_isolated_external_node.
+
+Theorem C01_nullary_factor :
+  forall R (o : sr_ops R), sr_ring o ->
+  forall G (e : env (R:=R)) r l xi,
+    rule_val o G e (add_edge r (l, [])) xi = mul o (e l []) (rule_val o G e r xi).
+Proof. exact (fun R o H => @rule_val_nullary_factor R o H). Qed.
+Print Assumptions C01_nullary_factor.
+
+Theorem C01_ruleless_nonterminal_is_zero :
+  forall R (o : sr_ops R) G w k X xi, is_term G X = false -> rules_of G X = [] -> Zk o G w k X xi = zero o.
+Proof. exact (fun R o => @Zk_ruleless R o). Qed.
+Print Assumptions C01_ruleless_nonterminal_is_zero.
+
+Theorem C01_start_symbol_any_arity :
+  forall R (o : sr_ops R), sr_ring o ->
+  forall G w ord,
+    wf_grammar G = true -> (forall l, tget w l <> None -> is_term G l = true) ->
+    dep_ordered G [] ord -> NoDup ord -> (forall X, is_term G X = false -> In X ord) ->
+  forall xi, In xi (all_assts (lshape G (g_start G))) ->
+    env_of o (sum_products_nonrec o G w (map (fun x => [x]) ord)) (g_start G) xi
+    = sumS o (enum_trees G (length (nonterminals G)) (g_start G) xi) (weight o G (env_of o w))
+    /\ (forall t, In t (enum_trees G (length (nonterminals G)) (g_start G) xi) <-> wf_dtree G (g_start G) xi t).
+Proof. exact (fun R o H => @sum_product_start R o H). Qed.
+Print Assumptions C01_start_symbol_any_arity.
+
+(** * Instances: the Boolean semiring (ereal / trop: compose with the law proofs of C08) *)
+Theorem C01_bool_is_semiring : sr_ring bool_ops.
+Proof. exact bool_ring. Qed.
+Print Assumptions C01_bool_is_semiring.
+
+Theorem C01_bool_sum_products_eq_spec :
+  forall G, wf_grammar G = true ->
+  forall w ord, (forall l, tget w l <> None -> is_term G l = true) ->
+    dep_ordered G [] ord -> NoDup ord -> (forall X, is_term G X = false -> In X ord) ->
+  forall X xi, is_term G X = false -> In xi (all_assts (lshape G X)) ->
+    let N := length (nonterminals G) in
+    let v := env_of bool_ops (sum_products_nonrec bool_ops G w (map (fun x => [x]) ord)) X xi in
+    v = env_of bool_ops (Ztab bool_ops G (env_of bool_ops w) N) X xi
+    /\ v = Zk bool_ops G (env_of bool_ops w) N X xi
+    /\ v = sumS bool_ops (enum_trees G N X xi) (weight bool_ops G (env_of bool_ops w))
+    /\ NoDup (enum_trees G N X xi)
+    /\ (forall t, In t (enum_trees G N X xi) <-> wf_dtree G X xi t).
+Proof. exact (@sum_products_nonrec_correct bool bool_ops bool_ring). Qed.
+Print Assumptions C01_bool_sum_products_eq_spec.
+
+Theorem C01_bool_Zk_is_tree_sum :
+  forall G w k X xi, is_term G X = false -> Zk bool_ops G w k X xi = tree_sum bool_ops G w k X xi.
+Proof. exact (@Zk_is_tree_sum bool bool_ops bool_ring). Qed.
+Print Assumptions C01_bool_Zk_is_tree_sum.
+
+(** the hypotheses are satisfiable: a concrete grammar with an isolated internal node, a rule-less
+    unreachable nonterminal and a dependency order (Proofs/SP_examples.v) *)
+Theorem C01_example_hypotheses :
+  wf_grammar G_ex = true /\ ranked G_ex rank_ex /\ dep_ordered G_ex [] ord_ex /\ NoDup ord_ex
+  /\ (forall X, is_term G_ex X = false -> In X ord_ex)
+  /\ nonrecursive_order G_ex (map (fun x => [x]) ord_ex) = true
+  /\ wf_dtree G_ex 2 [] t_ex.
+Proof.
+  exact (conj G_ex_wf (conj G_ex_ranked (conj G_ex_dep_ordered (conj ord_ex_NoDup
+        (conj ord_ex_all (conj order_ex_nonrecursive t_ex_wf)))))).
+Qed.
+Print Assumptions C01_example_hypotheses.
